@@ -37,10 +37,8 @@ func genCase(t *rapid.T) Case {
 		cs.Own = gen.SmallErr().Draw(t, "own-err")
 	}
 	st := script.Stmt{Cols: gen.Cols(nc, gen.SimpleTypes).Draw(t, "cols")}
-	if rapid.IntRange(0, 5).Draw(t, "no-cols?") == 0 {
-		st.Cols = nil // CopyIn must refuse: at least one column is required
-		class["copy-without-columns"] = true
-	}
+	// (COPY for a statement without columns is refused by the library today; the property does not say
+	// so, hence it is not generated here)
 	st.Ops = append(st.Ops, script.Op{K: "copyin", Copy: cs})
 	if rapid.IntRange(0, 4).Draw(t, "complete?") != 0 {
 		st.Ops = append(st.Ops, script.Op{K: "complete", Tag: "COPY 1"})
@@ -55,7 +53,19 @@ func genCase(t *rapid.T) Case {
 	extended := rapid.Bool().Draw(t, "extended?")
 	if extended {
 		class["started-by-execute"] = true
-		c.Msgs = append(c.Msgs, script.CMsg{K: "P", Query: "copy t from stdin"}, script.CMsg{K: "B"}, script.CMsg{K: "E"})
+		bind := script.CMsg{K: "B"}
+		switch rapid.IntRange(0, 3).Draw(t, "bind-result-formats") {
+		case 1:
+			bind.RFmts = []int16{1 - cs.Format}
+		case 2:
+			for i := 0; i < nc; i++ {
+				bind.RFmts = append(bind.RFmts, int16(rapid.IntRange(0, 1).Draw(t, "rfmt")))
+			}
+		}
+		if bind.RFmts != nil {
+			class["bind-result-formats-differ-from-copy-format"] = true
+		}
+		c.Msgs = append(c.Msgs, script.CMsg{K: "P", Query: "copy t from stdin"}, bind, script.CMsg{K: "E"})
 	} else {
 		class["started-by-query"] = true
 		c.Msgs = append(c.Msgs, script.CMsg{K: "Q", Query: "copy t from stdin"})
